@@ -88,6 +88,75 @@ def f(x):
 '''
 
 
+SHARED_EXAMPLE = """
+import threading
+class Model:
+    _flag = threading.Event()
+    _limit = 20
+    def stop(self):
+        self._flag.set()
+"""
+
+_READ_ONLY = {"is_set", "get", "keys", "values", "items", "copy", "index", "count", "isdisjoint", "issubset", "issuperset", "startswith", "endswith", "format", "join"}
+
+
+def _immutable_expr(v):
+    if isinstance(v, ast.Constant):
+        return True
+    if isinstance(v, ast.UnaryOp):
+        return _immutable_expr(v.operand)
+    if isinstance(v, ast.Tuple):
+        return all(_immutable_expr(x) for x in v.elts)
+    if isinstance(v, (ast.Name, ast.Attribute, ast.Lambda)):
+        return True  # an alias of something defined elsewhere (a function, a constant): not created here
+    if isinstance(v, ast.Call) and isinstance(v.func, ast.Name) and v.func.id in ("frozenset", "tuple", "property", "staticmethod", "classmethod", "int", "float", "str", "bool"):
+        return True
+    return False
+
+
+def shared_class_state(trees):
+    """[(kind, class, attribute, site, message)] for every class of the given (relpath, tree) modules."""
+    out = []
+    for rel, tree in trees:
+        for cnode in [n for n in ast.walk(tree) if isinstance(n, ast.ClassDef)]:
+            shared = {}
+            for st in cnode.body:
+                tg = None
+                if isinstance(st, ast.Assign) and len(st.targets) == 1 and isinstance(st.targets[0], ast.Name):
+                    tg, val = st.targets[0].id, st.value
+                elif isinstance(st, ast.AnnAssign) and isinstance(st.target, ast.Name) and st.value is not None:
+                    tg, val = st.target.id, st.value
+                if tg is not None and not _immutable_expr(val):
+                    shared[tg] = (st, val)
+            if not shared:
+                out.append(("ok", cnode.name, "", "%s:%d" % (rel, cnode.lineno), ""))
+                continue
+            for nm, (st, val) in shared.items():
+                muts = []
+
+                def is_ref(e, nm=nm):
+                    return isinstance(e, ast.Attribute) and e.attr == nm and isinstance(e.value, (ast.Name, ast.Call, ast.Attribute))
+
+                for rel2, tree2 in trees:
+                    for n in ast.walk(tree2):
+                        if isinstance(n, ast.Call) and isinstance(n.func, ast.Attribute) and is_ref(n.func.value) and n.func.attr not in _READ_ONLY:
+                            muts.append((rel2, n, "%s.%s()" % (nm, n.func.attr)))
+                        elif isinstance(n, (ast.Assign, ast.AugAssign)):
+                            for t_ in (n.targets if isinstance(n, ast.Assign) else [n.target]):
+                                if isinstance(t_, ast.Subscript) and is_ref(t_.value):
+                                    muts.append((rel2, n, "%s[...] = ..." % nm))
+                                elif isinstance(n, ast.AugAssign) and is_ref(t_):
+                                    muts.append((rel2, n, "%s op= ..." % nm))
+                if muts:
+                    rel2, n, how = muts[0]
+                    out.append(("violation", cnode.name, nm, "%s:%d" % (rel2, n.lineno),
+                                "%s.%s = %s is created once for the class and changed in place (%s): every model in the process sees the change, so a repeated run of the same seeded "
+                                "operations behaves differently" % (cnode.name, nm, ast.unparse(val)[:40], how)))
+                else:
+                    out.append(("ok", cnode.name, nm, "%s:%d" % (rel, st.lineno), ""))
+    return out
+
+
 def run(ck):
     prog = ck.program
     # ------------------------------------------------------------------ R1 randomness sources
@@ -199,6 +268,18 @@ def run(ck):
                 paths = paths_of(prog, lambda it, fn=fn, cls=cls: fn(it, make_state(it, cls)), sticky=True)
                 ck.check(any(api.param_effects(p) for p in paths), "C14.R3", inst, prog.method(cls, name).site(),
                          "the effect analysis sees no parameter write in %s (detector or anchor broken)" % name)
+    # ------------------------------------------------------------------ R6 no state shared between model instances
+    # An object created once in a class body is the same object for every instance.  If instances change it (method calls on
+    # it, item stores, augmented assignment), what one model does (a stop request, a recorded value) is seen by every other
+    # model in the process: the same seeded sequence of operations then gives different results on its second run.
+    for kind, cname, nm, site, msg in shared_class_state([(m.relpath, m.tree) for m in mods]):
+        if kind == "violation":
+            ck.violation("C14.R6", "%s.%s: shared by every instance and changed through instances" % (cname, nm), site, msg)
+        else:
+            ck.ok("C14.R6", "%s%s" % (cname, (".%s: per-class object never changed in place" % nm) if nm else ": no per-class mutable object"), site)
+    pos = shared_class_state([("<example>", ast.parse(SHARED_EXAMPLE))])
+    ck.check(any(k == "violation" for k, *_ in pos), "C14.R6", "positive example is recognised", "", "the built-in example of a shared, instance-mutated class attribute is not recognised")
+    ck.require_min("C14.R6", 10)
     ck.require_min("C14.R1", 11)
     ck.require_min("C14.R2", 4)
     ck.require_min("C14.R3", 120)
